@@ -5,6 +5,11 @@ CONSTANTS
   Packer = "required"
   Policy = "required"
   EofPolicy = "required"
+  HeadPolicy = "required"
+  Grouping = "gline"
+  SrcLen = 0
+  ColSeq <- ColSeqTwo
+  MaxSel = 0
   FileNames = {}
   TopFile = ""
   LineNames = {}
